@@ -355,39 +355,12 @@ func sameValue(a, b ssa.Value) bool {
 		fa, ok1 := la.X.(*ssa.FieldAddr)
 		fb, ok2 := lb.X.(*ssa.FieldAddr)
 		if ok1 && ok2 && fa.Field == fb.Field && fa.X == fb.X {
-			if al, ok := fa.X.(*ssa.Alloc); ok && writtenOnceAsAWhole(al) {
+			if al, ok := fa.X.(*ssa.Alloc); ok && wholeStore(al) != nil {
 				return true
 			}
 		}
 	}
 	return false
-}
-
-// writtenOnceAsAWhole: the local struct al receives exactly one whole-value store and its
-// fields are only ever read (a spilled value receiver or a by-value copy).
-func writtenOnceAsAWhole(al *ssa.Alloc) bool {
-	stores := 0
-	for _, ref := range *al.Referrers() {
-		switch x := ref.(type) {
-		case *ssa.Store:
-			if x.Addr != ssa.Value(al) {
-				return false
-			}
-			stores++
-		case *ssa.FieldAddr:
-			for _, r2 := range *x.Referrers() {
-				if ld, ok := r2.(*ssa.UnOp); !ok || ld.Op != token.MUL {
-					if _, dbg := r2.(*ssa.DebugRef); !dbg {
-						return false
-					}
-				}
-			}
-		case *ssa.DebugRef:
-		default:
-			return false
-		}
-	}
-	return stores == 1
 }
 
 // ---------------------------------------------------------------------------
